@@ -480,5 +480,5 @@ class C08(EngineProp):
 
 C08.rule = ('as C07 (protocol-legal peer, legal application, races, loss); every frame the endpoint queues is judged by a per-stream monitor against the endpoint\'s own '
             'earlier sends and receptions on that stream; plus client scenarios: requests and lease grants issued while connecting (SETUP first, once), lease-held requests with request(n)/cancel() before the LEASE, '
-            'and reconnects (server EOF / transport error / healthy; reconnect() from the harness or from inside on_close) with channels, streams and request-responses open whose publishers, if the library did not cancel them, emit on the new connection: in 40% of them the write side of the old connection breaks first and the application goes on granting credit on its open streams for a moment; each connection is judged on its own')
+            'the CollectorSubscriber behind AwaitableRSocket as the application (limit rate 1..5, stream lengths that are or are not a multiple of it, ended by a flagged element, COMPLETE or ERROR), and reconnects (server EOF / transport error / healthy; reconnect() from the harness or from inside on_close) with channels, streams and request-responses open whose publishers, if the library did not cancel them, emit on the new connection: in 40% of them the write side of the old connection breaks first and the application goes on granting credit on its open streams for a moment; each connection is judged on its own')
 PROP = C08()
